@@ -75,27 +75,6 @@ class OnCurve:
   props = ["C06", "C18"]
 
 
-@contract(f"{E}::EcCurve.Multiply")
-class Multiply:
-  frame_props = ["C02", "C06", "C10", "C11"]
-  """Scalar multiplication: the double-and-add loop over Jacobian coordinates is covered by C11 (ring identities for the
-  formulas + bounded exhaustive on small curves).  Callers use the abstract group view: the result is a well-formed
-  point that is a function of (curve, p, n)."""
-  params = {"p": "point", "n": "int"}
-  self_fields = CURVE_FIELDS
-  returns = "point"
-  assumed = True
-  assumed_why = "group-law correctness of the Jacobian double-and-add is decided under C11 (ring mode + bounded tier)"
-  requires = ["wf_point(p)"]
-  ensures = ["wf_point(result)",
-             "is_inf(result) == ufb('ec_mul_is_inf', self.a, self.b, self.mod, p[0] is None, p[0], p[1], n)",
-             "implies(is_inf(p), is_inf(result))",
-             # logarithm view (decided under C11): n * P has logarithm n * dlog(P) and stays in the subgroup
-             "implies(not is_inf(p) and in_group(self, p[0], p[1]) and not is_inf(result), "
-             "in_group(self, result[0], result[1]) and (dlog(self, result[0], result[1]) - n * dlog(self, p[0], p[1])) % self.n == 0)",
-             "implies(not is_inf(p) and in_group(self, p[0], p[1]), is_inf(result) == ((n * dlog(self, p[0], p[1])) % self.n == 0))"]
-
-
 @contract(f"{E}::EcCurve.IsValidPublicKey")
 class IsValidPublicKey:
   replay_self = REPLAY_CURVE
@@ -112,6 +91,7 @@ class IsValidPublicKey:
              "(ufb('on_curve', self.a, self.b, self.mod, p[0] is None, p[0], p[1]) and not is_inf(p) "
              "and (self.h <= 1 or ufb('ec_mul_is_inf', self.a, self.b, self.mod, p[0] is None, p[0], p[1], self.n)) "
              "and 0 <= p[0] and p[0] < self.mod and 0 <= p[1] and p[1] < self.mod)"]
+  on_call = {f"{E}::EcCurve.OnCurve": ["implies(p[0] is not None, lemma('oncv_def', self.a, self.b, self.mod, p[0], p[1]))"]}
   total = True
   props = ["C06", "C18"]
 
@@ -241,7 +221,7 @@ class PointTable:
   params = {"base": "point", "n": "int"}
   self_fields = CURVE_FIELDS
   returns = "dict[int,int]"
-  requires = CURVE_REQ + ["wf_point(base)"]
+  requires = CURVE_REQ + ["wf_point(base)", "onp(self, base)"]
   raises = {"ArithmeticError": None}
   on_call = {f"{E}::EcCurve.BatchAddX": [
       "assert [C10,C11,C17] m >= 1 and len(args[1]) == m and len(sequence_low) == m",
@@ -259,7 +239,8 @@ class PointTable:
 # The discrete-log view of the group <G> (specification theory, no statement about code): dlog / in_group are
 # uninterpreted; the generator has logarithm 1, and the point with the negated y-coordinate (any representative) is the
 # inverse.  Code is tied to this view only through Multiply's (assumed, C11) contract.
-LOG_AXIOMS = ["in_group(self, self.g[0], self.g[1]) and dlog(self, self.g[0], self.g[1]) == 1"]
+LOG_AXIOMS = ["in_group(self, self.g[0], self.g[1]) and dlog(self, self.g[0], self.g[1]) == 1",
+              "oncv(self, self.g[0], self.g[1])"]
 
 
 @spec_axiom("log_neg")
@@ -389,6 +370,8 @@ class ExtendedBatchDL:
   requires = CURVE_REQ + ["self._table_size >= 0", "wf_point(self.g) and self.g[0] is not None"]
   spec_axioms = LOG_AXIOMS
   raises = {"ArithmeticError": None}
+  # Multiply's degenerate-tangent error (JacobianToAffine's ValueError) is possible only for a point off the curve
+  raises_only_if = {"ValueError": "exists(k, 0, len(points), not oncv(self, points[k][0], points[k][1]))"}
   ensures = ["len(result) == len(points)",
              ("C02,C10,C17", "forall(k, 0, len(result), result[k] is None or implies(in_group(self, points[k][0], points[k][1]), "
                              "is_dlog(self, result[k], points[k][0], points[k][1])))")]
@@ -480,7 +463,8 @@ class BatchDLOfDifferences:
   params = {"points": "list[tuple[int,int]]", "other_points": "Optional[list[tuple[int,int]]]", "max_diff": "int"}
   self_fields = dict(CURVE_FIELDS, _table="dict[int,int]", _table_size="int")
   returns = "list[Optional[str]]"
-  requires = CURVE_REQ + ["self._table_size >= 0"]
+  requires = CURVE_REQ + ["self._table_size >= 0", "wf_point(self.g) and self.g[0] is not None"]
+  spec_axioms = ["oncv(self, self.g[0], self.g[1])"]      # the generator is on the curve (named curves: ground check)
   raises = {"ArithmeticError": None}    # BatchInverse's internal self-check (reached through PointTable / BatchAddX)
   ensures = [("C10", "len(result) == len(points)")]
   caller_ensures = ["len(result) == len(points)"]
